@@ -94,4 +94,4 @@ def schedule():
 
 def run(ctx):
     strat = st.fixed_dictionaries({'programs': SC.programs_strategy(2, 4, 6), 'schedule': schedule()})
-    ctx.run_given('interleave', strat, prop_interleave, ctx.n(1200, 4000))
+    ctx.run_given('interleave', strat, prop_interleave, ctx.n(1200, 10000))
